@@ -140,7 +140,7 @@ pub fn random_setup(r: &mut Rng, backend: &str, tag: u64) -> Setup {
         validators: (0..1 + r.below(3)).map(|i| addr(&vp, &format!("val{i}"), 20)).collect(),
         native_prefix: np.clone(),
         val_prefix: vp,
-        channel: format!("channel-{}", r.below(5000)),
+        channel: if r.chance(15) { format!("channel-{:0>4}", r.below(500)) } else { format!("channel-{}", r.below(5000)) },
         oracle: if r.chance(70) { Some(addr(CHAIN_PREFIX, "oracle", 32)) } else { None },
         treasury: if r.chance(50) { Some(addr(CHAIN_PREFIX, "treasury", 32)) } else { None },
         fee: *r.pick(&[0u128, 1, 1000, 10_000, 10_000, 33_333, 99_999, 100_000]),
@@ -352,7 +352,7 @@ impl WorldGen {
                 };
                 let col = v.cfg.native_chain_config.reward_collector_address.to_string();
                 self.w.native_faucet(&col, D, a);
-                let ch = v.cfg.protocol_chain_config.ibc_channel_id.clone();
+                let ch = self.s.channel.clone();
                 self.w.hook(&col, &ch, CHAIN_PREFIX, D, D, a, "rewards");
             }
             64..=71 => {
@@ -396,7 +396,7 @@ impl WorldGen {
                         self.w.native_faucet(&staker, D, a - have);
                     }
                     let id = if self.r.chance(5) { b.id + 7 } else { b.id };
-                    let ch = v.cfg.protocol_chain_config.ibc_channel_id.clone();
+                    let ch = self.s.channel.clone();
                     if a > 0 {
                         self.w.hook(&staker, &ch, CHAIN_PREFIX, D, D, a, &format!("unstaked {}", id));
                     }
@@ -582,7 +582,7 @@ impl WorldGen {
         let v = view(&self.w.sim);
         let admin = v.admin.clone().unwrap_or_default();
         let lst = self.s.lst();
-        let ch = v.cfg.protocol_chain_config.ibc_channel_id.clone();
+        let ch = self.s.channel.clone();
         let staker = v.cfg.native_chain_config.staker_address.to_string();
         let collector = v.cfg.native_chain_config.reward_collector_address.to_string();
         let hook_s = staking::helpers::derive_intermediate_sender(&ch, &staker, CHAIN_PREFIX).unwrap_or_default();
